@@ -35,7 +35,7 @@ var interpretableStd = map[string]bool{
 	"bufio": true, "container/heap": true, "container/list": true, "encoding/binary": true,
 	"hash/crc32": true, "hash": true, "time": true, "internal/itoa": true, "internal/stringslite": true,
 	"internal/byteorder": true, "cmp": true, "iter": true, "internal/bytealg": true, "path": true,
-	"encoding/hex": true, "unicode/utf16": true, "maps": true, "internal/abi": false,
+	"encoding/hex": true, "unicode/utf16": true, "maps": true, "internal/abi": false, "sync/atomic": true,
 }
 
 func (in *Interp) interpretable(pkgPath string) bool {
